@@ -16,6 +16,9 @@ class BasisFn:
         self.label = label
 
     def __call__(self, x):
+        if isinstance(x, Arr) and x.ndim == 2:
+            # evaluated on the whole data matrix: one value per snapshot (column)
+            return Arr((x.shape[1],), None, 'real', None, {'basis': self.label, 'point': x, 'vectorised': True}, 'basis-value')
         return Arr((), [], 'real', None, {'basis': self.label, 'point': x}, 'basis-value')
 
 
@@ -103,6 +106,9 @@ def check(repo, tier):
              'all cores are distinct arrays; the result satisfies the class invariant')
     run.rule('D2', 'single_core = i produces the same stores as core i of the full construction')
     run.rule('D3', 'gram: the result is the Hadamard product over the modes of Theta_1^T Theta_2, Theta_1 built from x_1 and Theta_2 from x_2 with the functions of that mode, contracted over the basis index')
+    run.rule('D5', 'HOCUR: every entry of a submatrix extracted for the cross approximation is the entry of the transformed data tensor at the multi-index formed by its row set, '
+             'its basis-function index and its column set, i.e. the product over all modes of the selected basis functions at the snapshot of the column set (first, intermediate '
+             'and last submatrix); the values are not written into an array of a narrower dtype')
     run.rule('D4', 'the public constructions do not modify their arguments (data, basis lists, rank lists): Layer-1 effect analysis')
     run.trusted = ['NumPy transfer functions']
     run.bounds = ('modes p in {1..5}, 2-3 functions per mode, state dimension 1-4' if tier == 'thorough' else 'modes p in {1,2,3}, 2-3 functions per mode, state dimension 2-3') + ', symbolic snapshot count; add_one on/off'
@@ -266,5 +272,82 @@ def check(repo, tier):
         f.rule = 'D4'
         run.add(f)
     run.oblige('D4', ('no module-level state in transform.py',), not ff)
+    # ------------------------------------------------------------------ D5 HOCUR: the submatrices handed to the cross approximation are entries of the tensor
+    hocur_submatrix_rule(run, repo, tier, F)
     run.floor('obligations decided', run.obligations, 30)
     return run
+
+
+def hocur_submatrix_rule(run, repo, tier, F):
+    """D5: transform.__hocur_extract_matrix interpreted with concrete index sets over a small data matrix; every entry compared with the definition of the tensor"""
+    from . import content
+    entry = f'{MOD}.__hocur_extract_matrix'
+    if entry not in repo.fns:
+        raise AnalysisError(f'{entry} not found (the HOCUR helper was renamed: rule D5 needs an update)')
+    M = 3                                               # snapshots
+    nfuns = [2, 3, 2, 2]
+
+    def want_entry(p, rows, k, cols, snap):
+        """product over the modes: rows fix modes 0..t-1, k is the function index of mode t, cols fix modes t+1..p-1"""
+        t = len(rows)
+        sel = list(rows) + [k] + list(cols)
+        assert len(sel) == p
+        return content.prod_([('basis', (q, sel[q]), ('x', (('all',), ('int', snap)))) for q in range(p)])
+    cases = []
+    for p in ((2, 3, 4) if tier == 'thorough' else (2, 3)):
+        # first submatrix: no row sets; column sets = (indices of modes 1..p-1, snapshot)
+        cols = [[(j + q) % nfuns[q + 1] for q in range(p - 1)] + [(2 * j + 1) % M] for j in range(3)]
+        cases.append((p, 'first', None, cols))
+        # last submatrix: row sets = indices of modes 0..p-1; the snapshot index is the row-inner index
+        rows = [[(i + 2 * q) % nfuns[q] for q in range(p)] for i in range(2)]
+        cases.append((p, 'last', rows, None))
+        for t in range(1, p):
+            rows = [[(i + q) % nfuns[q] for q in range(t)] for i in range(2)]
+            cols = [[(j + 2 * q + 1) % nfuns[t + 1 + q] for q in range(p - t - 1)] + [(j + 2) % M] for j in range(3)]
+            cases.append((p, f'intermediate (mode {t})', rows, cols))
+    cases = cases + [(p_, w_, r_, c_, 'integer') for (p_, w_, r_, c_) in cases if p_ == 3]
+    for p, which, rows, cols, *dk in cases:
+        xdt = 'int' if dk else 'real'
+        scen = f'__hocur_extract_matrix({p} modes, {which} submatrix, {len(rows) if rows else 1} row set(s), {len(cols) if cols else 1} column set(s){", integer data" if dk else ""})'
+
+        def body(sc):
+            x = Arr([2, M], None, xdt, None, {'role': 'x'}, 'x')
+            phi = [[BasisFn(q, k) for k in range(nfuns[q])] for q in range(p)]
+            return sc.call(entry, x, phi, [list(r) for r in rows] if rows is not None else None, [list(c) for c in cols] if cols is not None else None)
+        for ch, sc, res, exc in l2.explore(repo, body, typed=False):
+            if exc is not None:
+                run.oblige('D5', (entry, scen), False)
+                l2rules.raised_finding(run, 'C15', 'D5', repo, entry, scen, exc)
+                continue
+            bad, unknown = [], 0
+            for e in sc.events('float-loss') + sc.events('complex-loss'):
+                bad.append('values of the basis functions are written into an array of a narrower dtype (they are truncated): ' + e['detail'][:110])
+            if which == 'first':
+                mode, nr, nc = nfuns[0], 1, len(cols)
+            elif which == 'last':
+                mode, nr, nc = M, len(rows), 1
+            else:
+                mode, nr, nc = nfuns[len(rows[0])], len(rows), len(cols)
+            if not (isinstance(res, Arr) and res.ndim == 2 and sz_eq(res.shape[0], nr * mode) and sz_eq(res.shape[1], nc)):
+                bad.append(f'the submatrix has shape {getattr(res, "shape", None)} instead of ({nr} * {mode}, {nc})')
+            else:
+                for i in range(nr):
+                    for k in range(mode):
+                        for j in range(nc):
+                            got = content.entry(res, [i * mode + k, j])
+                            if which == 'first':
+                                want = want_entry(p, [], k, cols[j][:-1], cols[j][-1])
+                            elif which == 'last':
+                                want = content.prod_([('basis', (q, rows[i][q]), ('x', (('all',), ('int', k)))) for q in range(p)])
+                            else:
+                                want = want_entry(p, rows[i], k, cols[j][:-1], cols[j][-1])
+                            same = content.same_content(got, want)
+                            if same is None:
+                                unknown += 1
+                            elif not same:
+                                bad.append(f'entry [{i} * {mode} + {k}, {j}] is  {content.show(got)[:200]}  instead of  {content.show(want)[:200]}')
+            if unknown and not bad:
+                raise AnalysisError(f'{scen}: {unknown} entries of the submatrix are computed in a way the entry analysis does not follow')
+            run.oblige('D5', (entry, scen), not bad, sample={'rule': 'D5', 'scenario': scen, 'entry_0_0': content.show(content.entry(res, [0, 0]))} if p == 3 and which.startswith('inter') and not dk and isinstance(res, Arr) else None)
+            if bad:
+                run.add(F(entry, 'D5', 'HOCUR submatrix', f'{scen}: ' + '; '.join(sorted(set(bad))[:3])))
